@@ -156,6 +156,26 @@ int main(void)
             if (old && old != sock) Sim_freeSocket(old);
             peer_ns = 0; peer_seen = 0;
         }
+        else if (!strcmp(cmd, "sconnect")) {
+            /* (C18) the blocking CS104_Connection_connect: `sconnect [refuse]`.  The connection thread runs freely for this one;
+               prints `sconnect ret=<0|1>` after the events the attempt produced within 30 ms */
+            a1[0] = 0; sscanf(line, "%*s %63s", a1);
+            if (!con) {
+                con = CS104_Connection_create("server", 2404);
+                CS104_Connection_setConnectionHandler(con, conn_handler, NULL);
+                CS104_Connection_setRawMessageHandler(con, raw_handler, NULL);
+            }
+            else { release_thread(); }
+            sim_connect_result = strcmp(a1, "refuse") ? 1 : 0;
+            pthread_mutex_lock(&mx); thread_done = 0; at_gate = 0; gate_allowed = 0; freerun = 1; pthread_mutex_unlock(&mx);
+            Socket old = sock;
+            int r = CS104_Connection_connect(con) ? 1 : 0;
+            usleep(30000);
+            sock = sim_last_client_socket;
+            if (old && old != sock) Sim_freeSocket(old);
+            peer_ns = 0; peer_seen = 0;
+            { char b2[48]; snprintf(b2, sizeof b2, "sconnect ret=%d\n", r); evprintf(b2); }
+        }
         else if (!strcmp(cmd, "connectfail")) {
             /* the library gives no event we could wait for if it forgets to report the failure: join the thread instead */
             if (!con) {
